@@ -1,5 +1,5 @@
 CONSTANTS MaxSyms = 5 Pairs = TRUE Emit = FALSE
 INIT Init
 NEXT Next
-INVARIANT Guards
+INVARIANT Guards GuardsV
 CHECK_DEADLOCK FALSE
